@@ -36,6 +36,28 @@ def ensure_helper():
     return None
 
 
+def ensure_shared(name):
+    """-> path of native/<name>.c built as a shared object (LD_PRELOAD interposers), or None."""
+    src = os.path.join(HERE, "native", name + ".c")
+    with open(src, "rb") as f:
+        h = hashlib.sha1(f.read()).hexdigest()[:12]
+    so = os.path.join(BUILD, f"lib{name}-{h}.so")
+    if os.path.exists(so):
+        return so
+    os.makedirs(BUILD, exist_ok=True)
+    tmp = so + f".{os.getpid()}.tmp"
+    for cc in ("cc", "gcc", "clang"):
+        try:
+            r = subprocess.run([cc, "-O2", "-shared", "-fPIC", "-o", tmp, src, "-ldl"], stdout=subprocess.PIPE, stderr=subprocess.PIPE,
+                               env={k: v for k, v in os.environ.items() if k != "LD_PRELOAD"})
+        except FileNotFoundError:
+            continue
+        if r.returncode == 0:
+            os.replace(tmp, so)
+            return so
+    return None
+
+
 def pid_max():
     try:
         with open("/proc/sys/kernel/pid_max") as f:
